@@ -23,6 +23,9 @@ CHECKS = {
  "C30": ("model_checking", "exhaustive enumeration of programs x injected syntax error at every position through the real Handler", "All valid programs of 1..2 (quick) / 3 (thorough) lines with one malformed line injected at every position: request rejected and state unchanged; uninjected programs equal line-by-line submission.", "injections absorbed by comments / lenient meta parser are not cases", "2/C30", "E2"),
  "C32": ("model_checking", "explicit-state exploration of bounded write histories through the real Handler vs a set model", "All histories up to depth 4 (quick) / 5 (thorough) over 9 write statements (bulk with in-batch duplicates, absent deletes, conditional deletes, update); stored relation and reply counts must equal the set model's change after every step.", "set model in harness/src/e2_handler.rs", "2/C32", "E2"),
  "C33": ("model_checking", "exhaustive enumeration of schemas x tuple batches x insert paths on the real Handler/StorageEngine", "Schemas over every declared type in arity 1-2 x inserts of 1-2 tuples from a literal pool through persistent and session paths, schema-first and data-first; conformance table in the harness is the oracle.", "ambiguous (schema type, value) pairs are not asserted", "2/C33", "E2"),
+ "C04": ("exploration", "bounded-exhaustive clause permutations / repetitions and program sequences on a reused engine", "All permutations of the non-query clauses and every single-clause duplication of every generated program (F1-F6) x small EDBs must answer like the original order and like R1; all ordered pairs and triples of a program pool on one reused IQLEngine must leave the last answer and the stored base facts unchanged.", "R1 oracle; mutual-recursion order dependence is a listed known finding (same root cause as C01)", "2/C04", "E1"),
+ "C26": ("exploration", "exhaustive finite-domain law checking + explicit-state exploration of LSH cache operation sequences", "Distance/quantization/probe laws on complete small grids (incl. zero and 1e6 magnitudes, int8 extremes); every sequence up to depth 4/5 over 14 cache operations must return the bucket computed in a cleared cache.", "tolerance 1e-5; sequential cache leg is single-threaded because the cache is process-global; interleavings of cache users are explored by the E4 leg when present", "2/C26", "E5"),
+ "C36": ("model_checking", "explicit-state exploration of all bounded insert/remove/rebuild/clear histories on the real BloomFilter and HashIndex vs a multiset model", "51 filter parameterisations (incl. degenerate 0/1/63/65 bits, 0/100 hashes) x all insert/clear sequences to depth 5/7 over 6 keys; 3 key-column specs x all histories to depth 4/6 over 14 operations; lookups compared with a multiset model after every step.", "harness structural tuple equality (bitwise floats) is the key-equality oracle", "2/C36", "E2"),
 }
 NA_DEFAULT = "check not built yet in this round (work in progress; DESIGN.md section 6 build order)"
 
@@ -45,9 +48,9 @@ m = {
    "add_only": True,
  },
  "engines": [
-   {"name": "E1", "path": "harness/src/e1.rs", "serves_properties": ["C01","C02","C03","C06","C07","C08"], "kind_free_text": E1},
-   {"name": "E5", "path": "harness/src/e5.rs", "serves_properties": ["C28","C31"], "kind_free_text": "E5 FIN: nested loops over complete finite domains"},
-   {"name": "E2", "path": "harness/src/e2_store.rs, harness/src/e2_handler.rs", "serves_properties": [k for k,v in CHECKS.items() if v[5]=="E2"], "kind_free_text": "E2 HIST: explicit-state exploration of all operation sequences up to a depth bound over a small alphabet, every sequence executed on real StorageEngine / Handler objects and compared with a reference model after every step"},
+   {"name": "E1", "path": "harness/src/e1.rs", "serves_properties": ["C01","C02","C03","C04","C06","C07","C08"], "kind_free_text": E1},
+   {"name": "E5", "path": "harness/src/e5.rs", "serves_properties": ["C26","C28","C31"], "kind_free_text": "E5 FIN: nested loops over complete finite domains"},
+   {"name": "E2", "path": "harness/src/e2_store.rs, harness/src/e2_handler.rs, harness/src/e2_index.rs", "serves_properties": [k for k,v in CHECKS.items() if v[5]=="E2"], "kind_free_text": "E2 HIST: explicit-state exploration of all operation sequences up to a depth bound over a small alphabet, every sequence executed on real StorageEngine / Handler objects and compared with a reference model after every step"},
  ],
  "checks": [],
  "not_applicable": [],
